@@ -1,4 +1,5 @@
 """C12  Concurrent writers are detected, never silently clobbered."""
+import shutil
 import struct
 
 from core import env
@@ -28,6 +29,7 @@ META = {
     "assumptions": ["writers use a common placement of the N share numbers", "version ids of distinct publishes are distinct"],
 }
 IMPORTS = ["Model.TestAndSet"]
+COQ_EXTRA = ["Model.SlotAnswer"]
 
 
 def enc(v):
@@ -180,7 +182,71 @@ def run(ctx):
         ctx.mismatch("test-and-set-model-differs", "storage server test-and-set behaviour and Model/TestAndSet.v disagree", case=info[ix],
                      correspondence="storage-server-test-and-set-vs-model")
     ctx.trace(len(terms) - len(bad))
+    answer_cases(ctx)
     grid_cases(ctx)
+
+
+def answer_cases(ctx):
+    """What a test-and-set request reports back (Model/SlotAnswer.server_read_data) on the real StorageServer: every share
+    the server holds for the slot, with its contents BEFORE the request's writes, whichever shares the request names and
+    whether or not its test vectors hold."""
+    from twisted.internet.task import Clock
+    from allmydata.storage.server import StorageServer
+    ctx.correspondence("server-answer-vs-model")
+    terms, info = [], []
+    n = ctx.n(60, 600)
+    for i in range(n):
+        r = ctx.rng("answer", i)
+        d = env.subdir("c12-ans-%d" % (i % 40))
+        shutil.rmtree(d, ignore_errors=True)          # no shares left over from an earlier case or run
+        ss = StorageServer(d, b"\x01" * 20, clock=Clock())
+        si = bytes([65 + i % 26]) * 16
+        secrets = (b"w" * 32, b"r" * 32, b"c" * 32)
+        held = {sh: r.randrange(0, 5) for sh in r.sample(range(8), r.randrange(1, 6))}
+        ok, _ = ss.slot_testv_and_readv_and_writev(si, secrets, {sh: ([], [(0, enc(v))], None) for sh, v in held.items()}, [])
+        assert ok
+        # the request: one or two share numbers (held or new), tests that hold or fail, as a publisher sends them
+        named = r.sample(range(8), r.choice([1, 1, 2]))
+        tw = {}
+        expect_wrote = True
+        for sh in named:
+            passing = r.random() < 0.6
+            if sh in held:
+                seen = held[sh] if passing else held[sh] + 1
+                tw[sh] = ([(0, 8, b"eq", enc(seen))], [(0, enc(9))], None)
+            else:
+                tw[sh] = ([(0, 8, b"eq", b"" if passing else enc(1))], [(0, enc(9))], None)
+            expect_wrote = expect_wrote and passing
+        wrote, rd = ss.slot_testv_and_readv_and_writev(si, secrets, tw, [(0, 8)])
+        case = {"held": {str(k_): v for k_, v in sorted(held.items())}, "named": sorted(named), "tests_hold": expect_wrote}
+        ctx.case(("answer", tuple(sorted(held.items())), tuple(sorted(named)), expect_wrote), kind="answer:%s" % ("applied" if expect_wrote else "refused"))
+        want = {sh: [enc(v)] for sh, v in held.items()}
+        if wrote != expect_wrote:
+            ctx.oracle_fail("test-and-set-result-wrong", "slot_testv_and_readv_and_writev returned %s, the test vectors %s" % (
+                wrote, "hold" if expect_wrote else "do not hold"), case=case)
+        if rd != want:
+            ctx.oracle_fail("answer-does-not-report-held-shares", "the answer to a test-and-set request naming shares %r reports %r; the server held %r "
+                            "before the request (the publisher learns of other versions only from this)" % (
+                                sorted(named), {k_: v[0].hex() for k_, v in sorted(rd.items())}, {k_: v[0].hex() for k_, v in sorted(want.items())}),
+                            case=case, expected=sorted(want), observed=sorted(rd))
+        obs = sorted((sh, struct.unpack(">Q", v[0])[0] if len(v[0]) == 8 else 999) for sh, v in rd.items())
+        terms.append("slot_eqb (server_read_data %s %s) %s" % (
+            T.lst(["(%s, %s)" % (T.N(sh), T.N(v)) for sh, v in sorted(held.items())]), T.lst([T.N(x) for x in sorted(named)]),
+            T.lst(["(%s, %s)" % (T.N(sh), T.N(v)) for sh, v in obs])))
+        info.append(case)
+    pre = """
+Fixpoint slot_eqb (a b : list (N * N)) : bool :=
+  match a, b with
+  | [], [] => true
+  | (x, u) :: a', (y, v) :: b' => (x =? y) && (u =? v) && slot_eqb a' b'
+  | _, _ => false
+  end.
+"""
+    bad = ctx.coq_check(["Model.SlotAnswer"], terms, preamble=pre, tag="c12ans")
+    for ix in bad:
+        ctx.mismatch("server-answer-differs", "the read data of a real test-and-set answer and Model/SlotAnswer.server_read_data differ", case=info[ix],
+                     correspondence="server-answer-vs-model")
+    ctx.trace(len(terms) - len(bad))
 
 
 def grid_cases(ctx):
